@@ -26,8 +26,8 @@ ASSUMPTIONS = [
     "move/scale with int/Fraction parameters on rational data: exact equality and Fraction type; otherwise "
     "1e-12 * (1 + |coordinates|) per step (float rounding of one multiplication/addition chain)",
     "scale factors are positive (the property's domain); negative factors mirror the shape and are not generated",
-    "rational coordinates whose exact image has a denominator above 10**9 may be rounded by 1e-9 (K-cap); "
-    "histories keep denominators below the cap",
+    "move and scale store the exact result whatever its denominator (only constructors round to denominators <= 10**9), "
+    "so histories with prime denominators up to 99991 must stay exact",
 ]
 DECIDING_MONITORS = ("transform:points-compared",)
 CASE_TIMEOUT = 120
@@ -45,7 +45,7 @@ def rand_exact(rng, lo, hi, positive=False):
         if positive and v <= 0:
             v = 1
         return v
-    den = rng.choice([2, 3, 4, 5, 10])
+    den = rng.choice([2, 3, 4, 5, 10, 7, 11, 10007, 99991])
     v = Fr(rng.randint(int(lo * den), int(hi * den)), den)
     if positive and v <= 0:
         v = Fr(1, den)
@@ -217,7 +217,7 @@ def case(ctx):
         case.judged()
         maxden = max([max(p[0].denominator, p[1].denominator) for p in pe] or [1])
         for i, (e, a) in enumerate(zip(pe, pa)):
-            if step_exact and maxden <= 10 ** 9:
+            if step_exact:
                 if e != a:
                     case.violate("%s with rational parameters: control point %d is %s, exact image %s" % (
                         step["op"], i, S.fmt_point(a), S.fmt_point(e)), step=k)
@@ -230,7 +230,7 @@ def case(ctx):
                     case.violate("%s: control point %d is %s, affine image %s" % (
                         step["op"], i, S.fmt_point((float(a[0]), float(a[1]))), S.fmt_point((float(e[0]), float(e[1])))), step=k)
                     break
-        if step_exact and maxden <= 10 ** 9:
+        if step_exact:
             raw = S.raw_numbers(shape)
             bad = [v for v in raw if not (isinstance(v, Fr) and O.is_wellformed_fraction(v))]
             if bad:
